@@ -203,7 +203,7 @@ def order(ctx, o, eff, q):
     reported = set()
     for rn, rnode, rtext, rkind, rcallee in R:
         before = [w for w in W if (w[0] is not rn and cfg.can_reach(w[0], rn)) or
-                  (w[0] is rn and (cfg.can_reach(rn, rn) or _in_comprehension(f, w[1]) or _in_comprehension(f, rnode)))]
+                  (w[0] is rn and (cfg.can_reach(rn, rn) or (_in_comprehension(f, w[1]) and _in_comprehension(f, rnode))))]
         if not before:
             n_ok += 1
             continue
